@@ -193,6 +193,12 @@ def build_atoms(a: dict):
             what = c.split(":")[1]
             if what == "framework":
                 idx = [i for i in range(n) if labels[i] < 0]
+            elif what.startswith("neglast"):  # the same atoms given the way ASE also accepts them: negative indices
+                idx = list(range(-int(what[7:]), 0))
+            elif what.startswith("masklast"):  # ... or as a boolean mask
+                k_ = int(what[8:])
+                cons.append(FixAtoms(mask=[i >= n - k_ for i in range(n)]))
+                continue
             elif what.startswith("last"):
                 idx = list(range(n - int(what[4:]), n))
             elif what.startswith("first"):
